@@ -29,12 +29,14 @@ package transport
 
 //@ func wsConnection.removeSub
 //@   requires c != nil && !held(c.subsMu) && !rheld(c.subsMu)
+//@   at call RWMutex.Unlock: assert {emptiness.is.decided.under.the.lock.after.the.removal} isEmpty == (len(c.subs) == 0) && !has(c.subs, id)
 //@   at call wsConnection.closeConn: assert {an.idle.connection.is.closed.only.when.no.subscription.is.left} isEmpty && !held(c.subsMu)
 //@   ensures !held(c.subsMu) && !rheld(c.subsMu)
 //@   modifies *, count(*)
 // the idle timer re-checks under the lock before closing
 //@ func wsConnection.removeSub$1
 //@   assumes {timer.goroutine.holds.no.lock} c != nil && !held(c.subsMu) && !rheld(c.subsMu)
+//@   at call RWMutex.RUnlock: assert {the.idle.timer.looks.again.under.the.lock} stillEmpty == (len(c.subs) == 0)
 //@   at call wsConnection.closeConn: assert {the.idle.timer.closes.only.a.connection.that.is.still.empty} stillEmpty && !held(c.subsMu) && !rheld(c.subsMu)
 //@   modifies *, count(*)
 
@@ -147,7 +149,7 @@ package transport
 //@   requires t != nil && !held(t.mu)
 //@   ghost var g_init bool = false
 //@   at call Protocol.Init: assert {the.init.payload.of.these.options.is.sent} arg3 == opts.InitPayload
-//@   at call Protocol.Init: ghost g_init = true
+//@   at call Protocol.Init: ghost g_init = result == nil
 //@   at call newWSConnection: assert {a.connection.object.exists.only.after.a.successful.handshake} g_init
 //@   ensures {a.connection.is.returned.only.after.dial.and.protocol.init.succeeded} result0 != nil ==> g_init && result1 == nil
 //@   ensures {success.means.a.connection} result1 == nil ==> result0 != nil
@@ -169,6 +171,13 @@ package transport
 //@   at call WSTransport.dial: assert {one.dialer.per.key.dials.without.the.pool.lock} !held(t.mu) && arg2 == g_key
 //@   at call WSTransport.dial: ghost g_dialer = true
 //@   at call WSTransport.dial: ghost g_dialErr = result1 != nil
+//@   ghost var g_asked bool = false
+//@   ghost var g_doneCh int = 0
+//@   at call WSTransport.dial: ghost g_asked = false
+//@   at call Context.Err: ghost g_asked = true
+//@   at call Context.Done: ghost g_doneCh = result
+//@   at call $wait: assert {a.waiter.also.listens.to.its.own.context} waitson(g_doneCh)
+//@   at call close: assert {the.dialers.own.context.is.consulted.when.the.dial.failed} err != nil ==> g_asked
 //@   at call close: assert {the.dial.result.is.published.before.done.is.closed} g_dialer && local(result).conn == conn && local(result).err == err
 //@   at call close: assert {a.dial.that.failed.after.its.own.subscriber.went.away.is.marked.aborted} local(result).aborted == (err != nil && !g_ownAlive)
 //@   at call close: assert {the.dial.slot.is.released.before.the.waiters.wake.so.a.retry.cannot.find.it.again} !has(t.dialing, g_key)
